@@ -136,7 +136,7 @@ theorem patch_metadata (base P : ImgA) (a0 a1 : Axis) (i j : Nat) (hcs : base.md
       (∀ v : List Rat, v.length = 2 → coordWith am P.md.cs v = coordWith am base.md.cs (List.zipWith (· + ·) v (start.map fun s => ((s : Nat) : Rat)))) ∧
       (∀ p, p < 2 → P.md.cs.h p = base.md.cs.h p) ∧
       P.md.time = base.md.time ∧ P.md.date = base.md.date ∧ P.md.scalar = base.md.scalar ∧
-      (∀ (t : Nat) (v : List Nat) (c : Nat), v.length = 2 → P.data t v c = base.data t (List.zipWith (· + ·) v start) c) := by
+      (∀ (t : Nat) (v : List Nat) (c : List Nat), v.length = 2 → P.data t v c = base.data t (List.zipWith (· + ·) v start) c) := by
   intro start
   unfold patchOf at h
   simp only [bind, Except.bind] at h
